@@ -13,7 +13,7 @@ and reports per DESIGN.md section 5.
 """
 import fcntl
 import json
-import os
+import glob, os
 import re
 import shutil
 import subprocess
@@ -537,4 +537,10 @@ def finish(rep, level="proof", level_assumptions=()):
     print("%s %s: %s in %.1fs (obligations %d/%d, cases %s, distinct non-trivial %s)" % (
         rep.pid, rep.tier, "OK" if exit_code == 0 else "FAILED", time.time() - rep.t0, cov["discharged"], cov["obligations"],
         cov.get("evaluations", 0), cov.get("distinct_nontrivial", 0)))
+    if exit_code == 0:
+        # scratch of a clean run is not needed again (the thorough tier leaves about 1 GB per property);
+        # after a violation it stays, next to the replay file, until the next run of the same check
+        for d in glob.glob(os.path.join(COQ, "gen", "%s-%s%s*" % (rep.pid, rep.tier, TAG))):
+            if TAG or not os.path.basename(d)[len("%s-%s" % (rep.pid, rep.tier)):].startswith("-seeded"):
+                shutil.rmtree(d, ignore_errors=True)
     return exit_code
